@@ -1,6 +1,6 @@
 From Coq Require Import List Arith Bool Lia.
 Import ListNotations.
-From IT Require Import Runtime.Actor.
+From IT Require Import Runtime.Actor Runtime.Lists.
 
 Section Inv.
 Context {A V : Type}.
@@ -32,8 +32,8 @@ Proof.
   - step_cases H; intros n Hn; specialize (I n Hn); cbn in *; 
       try rewrite app_length; cbn; 
       try (match goal with R : room _ _ = true |- _ => pose proof (room_length _ _ _ Hn R) end); try lia.
-  - step_cases H; intros n Hn; specialize (I n Hn);
-      try match goal with E : queue s = _ |- _ => rewrite E in I end; cbn in *; try lia.
+  - step_cases H; intros n Hn; specialize (I n Hn); cbn in *;
+      try (match goal with E : queue s = _ |- _ => rewrite E in * end); cbn in *; try lia.
 Qed.
 
 (* every reachable state *)
@@ -119,4 +119,47 @@ Proof.
   rewrite Hn, Hpc, Hm, Al, Hc. cbn. discriminate.
 Qed.
 
+
+(* ---- FIFO: what the channel accepted is what the actor took, in order, plus what is still queued ---- *)
+Definition fifo_ok (s : st) := enq s = deq s ++ qids s.
+
+Lemma fifo_step m s ch s' : fifo_ok s -> step m s ch = Some s' -> fifo_ok s'.
+Proof.
+  unfold fifo_ok, qids. intros I H. destruct ch as [t|]; cbn [Actor.step] in H.
+  - step_cases H; cbn in *; try assumption; rewrite I, ?map_app, <- ?app_assoc; cbn; reflexivity.
+  - step_cases H; cbn in *; try assumption;
+      try (match goal with E : queue s = _ |- _ => rewrite E in * end); cbn in *;
+      rewrite I, <- ?app_assoc, ?app_nil_r; cbn; try reflexivity.
+Qed.
+
+Theorem fifo_reachable m a0 progs sched : fifo_ok (run m a0 progs sched).
+Proof. unfold Actor.run. apply (inv_run fifo_ok m (fifo_step m)). reflexivity. Qed.
+
+(* ---- processing: executed calls (and the one in progress) are an order-preserving subsequence of what was
+        taken; without faults and stop messages it is exactly what was taken ---- *)
+Definition proc_ok (s : st) :=
+  subseq (applied_ids s ++ busy_id s) (deq s)
+  /\ (dropped s = [] -> moved s = 0 -> deq s = applied_ids s ++ busy_id s).
+
+Ltac nil_facts :=
+  repeat match goal with
+  | D : _ ++ _ = [] |- _ => apply app_eq_nil in D; destruct D
+  | D : _ :: _ = [] |- _ => discriminate D
+  | D : S _ = 0 |- _ => discriminate D
+  end.
+
+Lemma proc_step m s ch s' : proc_ok s -> step m s ch = Some s' -> proc_ok s'.
+Proof.
+  unfold proc_ok, applied_ids, busy_id, qids. intros [I1 I2] H. destruct ch as [t|]; cbn [Actor.step] in H.
+  - step_cases H; cbn in *; split; assumption.
+  - step_cases H; cbn in *;
+      repeat (match goal with E : busy s = _ |- _ => rewrite E in * end); cbn in *;
+      rewrite ?map_app, ?app_nil_r in *; cbn in *.
+    all: split;
+      [ first [ assumption | apply subseq_snoc; assumption | apply subseq_app_r; assumption
+              | apply subseq_app_r; eapply subseq_drop_r; eassumption | eapply subseq_drop_r; eassumption | idtac ]
+      | intros D M; nil_facts;
+        try (match goal with E : map msg_id (queue _) = [] |- _ => rewrite E in * end);
+        rewrite ?app_nil_r; try (rewrite I2 by auto); rewrite <- ?app_assoc; try reflexivity; try assumption ].
+Qed.
 End Inv.
